@@ -477,14 +477,27 @@ pub async fn run(ops: &str, out: &str, stats_path: Option<&str>, work: &str) {
     let mut case_no = 0u64;
     let run_dir = PathBuf::from(work).join(format!("c15-{}", std::process::id()));
     let _ = std::fs::remove_dir_all(&run_dir);
-    // panics of the code under test are observations, not harness failures
-    if std::env::var("DV_SHOW_PANICS").is_err() { std::panic::set_hook(Box::new(|_| {})); }
+    // panics of the code under test are observations, not harness failures: counted by the hook
+    crate::c14::install_panic_hook();
+    let mut c14w = crate::c14::World::new(work);
     for line in std::io::BufReader::new(f).lines() {
         let line = line.unwrap();
         let (kind, kv) = parse_kv(&line);
         let get = |k: &str| kv.get(k).and_then(|v| v.parse::<u64>().ok());
         let mut hint = String::new();
+        if kind == "case" {
+            c14w.case_index += 1;
+        }
         let res: String = match kind.as_str() {
+            "case" if kv.get("kind").map(|s| s.as_str()) == Some("c14") => match get("id") {
+                Some(id) => {
+                    world = World::None;
+                    c14w.reset().await;
+                    stats.inc("cases.c14");
+                    format!("case {}", id)
+                }
+                None => "bad-op".into(),
+            },
             "case" => match (get("id"), kv.get("kind").map(|s| s.as_str()), get("n")) {
                 (Some(id), Some("dm"), Some(n)) => {
                     world = World::Dm((0..n).map(|_| DataModel::new()).collect());
@@ -763,7 +776,10 @@ pub async fn run(ops: &str, out: &str, stats_path: Option<&str>, work: &str) {
                     _ => "bad-op".into(),
                 }
             }
-            _ => "bad-op".into(),
+            other => match c14w.handle(other, &kv, &mut stats).await {
+                Some(r) => r,
+                None => "bad-op".into(),
+            },
         };
         writeln!(w, "{}", res).unwrap();
         if hint.is_empty() {
@@ -773,7 +789,11 @@ pub async fn run(ops: &str, out: &str, stats_path: Option<&str>, work: &str) {
         }
     }
     drop(world);
+    if !c14w.oracle.is_empty() {
+        std::fs::write(format!("{}.oracle", out), c14w.oracle.join("\n") + "\n").unwrap();
+    }
     let _ = std::fs::remove_dir_all(&run_dir);
+    let _ = std::fs::remove_dir_all(PathBuf::from(work).join(format!("c14-{}", std::process::id())));
     w.flush().unwrap();
     hints.flush().unwrap();
     if let Some(p) = stats_path {
